@@ -407,10 +407,22 @@ bool StepExtended(ScriptExecutionEnvironment& env, CScript::const_iterator& pc, 
             CScriptNum num2(vch2, env.fRequireMinimal, 5);
             switch (env.opcode) {
             case OP_MUL: num1 = num1 * num2; break;
-            case OP_DIV: num1 = num1 / num2; break;
-            case OP_MOD: num1 = num1 % num2; break;
-            case OP_LSHIFT: num1 = num1 << num2; break;
-            case OP_RSHIFT: num1 = num1 >> num2; break;
+            case OP_DIV:
+                if (num2 == 0) return set_error(serror, SCRIPT_ERR_UNKNOWN_ERROR);
+                num1 = num1 / num2;
+                break;
+            case OP_MOD:
+                if (num2 == 0) return set_error(serror, SCRIPT_ERR_UNKNOWN_ERROR);
+                num1 = num1 % num2;
+                break;
+            case OP_LSHIFT:
+                if (num2 < 0 || num2 > 63) return set_error(serror, SCRIPT_ERR_UNKNOWN_ERROR);
+                num1 = num1 << num2;
+                break;
+            case OP_RSHIFT:
+                if (num2 < 0 || num2 > 63) return set_error(serror, SCRIPT_ERR_UNKNOWN_ERROR);
+                num1 = num1 >> num2;
+                break;
             default: assert(0);
             }
             vch1 = num1.getvch();
